@@ -15,6 +15,8 @@ import CdsVerif.Algo.ReentrantSpin.Model
 import CdsVerif.Algo.HP.Replay
 import CdsVerif.Algo.RCU.Model
 import CdsVerif.Algo.Michael.Model
+import CdsVerif.Algo.MSPQ.Model
+import CdsVerif.Algo.Segmented.Model
 open CdsVerif.Driver
 
 partial def lcLoop (h : IO.FS.Stream) (st : LcState) : IO Unit := do
@@ -128,10 +130,22 @@ def main (args : List String) : IO UInt32 := do
     replayLoop stdin CdsVerif.Algo.HP.Replay.modelR (fun cfg => CdsVerif.Algo.HP.Replay.initCfg cfg)
       CdsVerif.Algo.HP.Replay.relevant CdsVerif.Algo.HP.Replay.safeB none
     return 0
+  | ["replay", "segq"] =>
+    -- harness variant `i_hp_named` of the `segmented` client, trace rewritten by tools/segq_pre.py (permutations folded into the
+    -- CALL lines); initial state: header words `qf=` and `warm=` (the warm-up is run on the machine)
+    replayLoop stdin CdsVerif.Algo.Segmented.model (fun cfg => CdsVerif.Algo.Segmented.initCfg cfg)
+      (fun loc => loc == "segHead" || loc == "segTail" || loc == "segLock"
+        || (loc.startsWith "s" && loc.any (· == '.') && !(loc.any (· == '+')))) CdsVerif.Algo.Segmented.checkB none
+    return 0
   | ["replay", "ring"] =>
     -- initial state from the header words `cap=<capacity()>` and (optional) `rot=<warm-up rotations>`
     replayLoop stdin CdsVerif.Algo.Ring.model (fun cfg => CdsVerif.Algo.Ring.initCfg cfg)
       (fun loc => loc == "front" || loc == "back") (fun _ => true) none
+    return 0
+  | ["replay", "mspq"] =>
+    -- harness variant `imspq_named` of the `pqueue` client; header words `cap=<capacity()>` `pre=<pre-filled values>`
+    replayLoop stdin CdsVerif.Algo.MSPQ.rmodel (fun cfg => CdsVerif.Algo.MSPQ.rinit cfg)
+      CdsVerif.Algo.MSPQ.relevant (fun _ => true) none
     return 0
   | _ =>
     IO.eprintln "usage: cdsdriver lincheck|replay <model>|eval <fn>"
